@@ -320,6 +320,29 @@ func (e *Exec) hasSuffix(s, p win) *Term {
 // indexByte returns the first (last) index of ch in the window, or -1.
 func (e *Exec) indexByte(s win, ch *Term, last bool) *Term {
 	c := e.ctx
+	if len(s.b) > 256 && !s.conc() && s.off.isConstTree() && s.len.isConstTree() &&
+		len(c.LeafValues(s.off))*len(c.LeafValues(s.len)) <= 64 {
+		// guarded value sets for the window: one concrete window per leaf pair
+		// (pairs no path reaches are clamped to the backing store; their guard is false)
+		return c.mapLeaves(s.off, func(o *Term) *Term {
+			return c.mapLeaves(s.len, func(n *Term) *Term {
+				ov, nv := o.SVal(), n.SVal()
+				if ov < 0 {
+					ov = 0
+				}
+				if ov > int64(len(s.b)) {
+					ov = int64(len(s.b))
+				}
+				if nv < 0 {
+					nv = 0
+				}
+				if ov+nv > int64(len(s.b)) {
+					nv = int64(len(s.b)) - ov
+				}
+				return e.indexByte(win{s.b, c.Int(ov), c.Int(nv)}, ch, last)
+			}, map[int]*Term{})
+		}, map[int]*Term{})
+	}
 	maxn := len(s.b)
 	if s.len.IsConst() {
 		maxn = int(s.len.SVal())
